@@ -33,10 +33,23 @@ func (m Mut) String() string {
 	if isStructural(m.Op) {
 		return fmt.Sprintf("%s[%d:%d]", m.Op, m.Off, m.Off+m.Val)
 	}
+	if m.Op == "chv" {
+		return fmt.Sprintf("chv@%d=%q", m.Off, byte(m.Val))
+	}
+	if m.Op == "ch2v" {
+		return fmt.Sprintf("ch2v@%d=%q", m.Off, textPairs[m.Val])
+	}
 	return fmt.Sprintf("%s@%d", m.Op, m.Off)
 }
 
 var structuralOps = []string{"rmv", "dupv", "swapv", "zerov", "onesv"}
+
+// chv: one byte of a text leaf replaced by a character that number and name parsers treat
+// specially (Off = byte offset, Val = the character)
+var textChars = []byte{'-', '9', '+', ' ', '.'}
+
+// ch2v: two adjacent bytes of a text leaf replaced by a signed number (Val = index)
+var textPairs = []string{"-1", "-9", "+1"}
 
 func isStructural(op string) bool {
 	for _, o := range structuralOps {
@@ -173,6 +186,12 @@ func (m Mut) Applies(seed []byte, T int) bool {
 	if k, _ := blockOf(m.Op); k != "" {
 		return m.Off < n
 	}
+	if m.Op == "chv" {
+		return m.Off >= 0 && m.Off < n && seed[m.Off] != byte(m.Val)
+	}
+	if m.Op == "ch2v" {
+		return m.Off >= 0 && m.Off+2 <= n && m.Val < len(textPairs) && string(seed[m.Off:m.Off+2]) != textPairs[m.Val]
+	}
 	if isStructural(m.Op) {
 		if m.Val <= 0 || m.Off < 0 || m.Off+m.Val > n {
 			return false
@@ -235,6 +254,16 @@ func (m Mut) Apply(seed []byte) []byte {
 		if m.Off+w <= n {
 			copy(d[m.Off:], winBytes(w, m.Val))
 		}
+		return d
+	}
+	if m.Op == "ch2v" && m.Off >= 0 && m.Off+2 <= n && m.Val < len(textPairs) {
+		d := append([]byte{}, seed...)
+		copy(d[m.Off:], textPairs[m.Val])
+		return d
+	}
+	if m.Op == "chv" && m.Off >= 0 && m.Off < n {
+		d := append([]byte{}, seed...)
+		d[m.Off] = byte(m.Val)
 		return d
 	}
 	if isStructural(m.Op) && m.Val > 0 && m.Off >= 0 && m.Off+m.Val <= n {
